@@ -66,7 +66,8 @@ _duration_re = re.compile(
         r'(?:(?P<days>\d+)D)?'
         r'(?:T(?:(?P<hours>\d+)H)?'
         r'(?:(?P<minutes>\d+)M)?'
-        r'(?:(?P<seconds>\d+(.\d+)?)S)?)?'
+        r'(?:(?P<seconds>\d+(\.\d+)?)S)?)?'
+        r'\Z'
     )
 
 
@@ -523,27 +524,34 @@ class InProtocolBase(ProtocolMixin):
                 raise ValidationError(e.message, "%s")
 
     def duration_from_unicode(self, cls, string):
-        duration = _duration_re.match(string).groupdict(0)
-        if duration is None:
+        match = _duration_re.match(string)
+        if match is None:
             raise ValidationError(string,
                 "Time data '%%s' does not match regex '%s'" %
                                                         (_duration_re.pattern,))
+
+        duration = match.groupdict(0)
 
         days = int(duration['days'])
         days += int(duration['months']) * 30
         days += int(duration['years']) * 365
         hours = int(duration['hours'])
         minutes = int(duration['minutes'])
-        seconds = float(duration['seconds'])
-        f, i = modf(seconds)
+        # exact decimal arithmetic: binary floats lose microseconds
+        seconds = D(duration['seconds'])
+        i = int(seconds)
+        microseconds = int(((seconds - i) * 1000000).to_integral_value())
         seconds = i
-        microseconds = int(1e6 * f)
 
-        delta = timedelta(days=days, hours=hours, minutes=minutes,
-            seconds=seconds, microseconds=microseconds)
+        try:
+            delta = timedelta(days=days, hours=hours, minutes=minutes,
+                seconds=seconds, microseconds=microseconds)
 
-        if duration['sign'] == "-":
-            delta *= -1
+            if duration['sign'] == "-":
+                delta *= -1
+
+        except OverflowError as e:
+            raise ValidationError(string, "%%r: %r" % e)
 
         return delta
 
